@@ -39,11 +39,11 @@ CHECKS = {
             "deterministic simulation: sys.settrace crash-point injection + natural failures, table-snapshot oracle, seeded episodes with ddmin shrinking and replay",
             "DESIGN.md section 4, C08"),
     "C09": ("Seeded search over histories (edits, switching, successful / failed / interrupted calculations of all kinds) with probes that compare the next calculation on the live object with the same calculation on a scrubbed deep copy.",
-            "init='results' clause operationalised: previous converged default-start result at most 2 switching/small-setpoint edits old; nets <= 60 buses; tolerance 1e-6 (1e-5/1e-4 for different start points). " + COMMON_NOTE,
+            "init='results' clause operationalised: previous converged default-start result at most 2 switching/small-setpoint edits old, previous result and fresh reference are ordinary operating points (0.8-1.2 p.u.), the fresh run needs <= 6 iterations; a failing init-results run is judged for algorithm='nr' only; nets <= 60 buses; tolerance 1e-6 (5e-5/1e-4 for different start points); one open known finding (other-solution-branch). " + COMMON_NOTE,
             "deterministic simulation: seeded operation/fault histories, replica (scrubbed-copy) oracle, crash-point injection into earlier calculations",
             "DESIGN.md section 4, C09"),
     "C12": ("Seeded search over ConstControl sets (every supported element.variable, single/multi index, DFData/SimData), OutputWriter variable selections (batch-readable and not, subsets, eval functions, constructor tuples), time-step sequences, recycle modes, runpp/rundcpp, a simulated wall clock for intermediate dumps, failing steps (natural and planned) with recovery, and repeated runs on one net; every recorded value is compared with a fresh power flow of a replica at that step.",
-            "Steps at and after an extreme state (reference fails / >6 iterations / voltages outside 0.85-1.15 without the live run flagging a failure) are inconclusive (start-point effects); one open known finding (0 vs NaN at out-of-service branches in batch-read results). " + COMMON_NOTE,
+            "Steps at and after a stressed state (reference fails / >5 iterations / voltages outside 0.9-1.1 without the live run flagging a failure) are inconclusive (start-point effects); one open known finding (0 vs NaN at out-of-service branches in batch-read results). " + COMMON_NOTE,
             "deterministic simulation: logical time steps, simulated clock and data source, failing run callback; replica with a fresh power flow per step as reference model",
             "DESIGN.md section 4, C12"),
     "C13": ("Seeded search over controller sets (Discrete/Continuous tap control on 2W/3W transformers and both sides, ConstControl, probe controllers) with seeded levels/orders/in_service/start taps/bands/max_iter, planned failures of run invocations, repeated calls with edits in between; the recorded event history of every call is checked for outcome class, bounded termination, convergence and freshness of results on return, tap invariants after every control step, and call order.",
